@@ -55,6 +55,8 @@ def _nditer_supplied(alloc):
 CORPUS = {}
 
 CORPUS["C01"] = [
+    B("norm product through math.prod of a tuple", (GEO, "        pdfnorm = normThetaTrSubV * normPhiTrSubV * normPhiS * normThetaS", "        import math\n        pdfnorm = math.prod((normThetaTrSubV, normPhiTrSubV, normPhiS, normThetaS))")),
+    M("norm product through math.prod with one factor missing", (GEO, "        pdfnorm = normThetaTrSubV * normPhiTrSubV * normPhiS * normThetaS", "        import math\n        pdfnorm = math.prod((normThetaTrSubV, normPhiTrSubV, normThetaS))")),
     M("wrong trigonometric root (k = 1)", (GEO, "        v3 = 2 * np.sqrt(-q) * np.cos((psi + 4 * np.pi) / 3)", "        v3 = 2 * np.sqrt(-q) * np.cos((psi + 2 * np.pi) / 3)")),
     M("cubic coefficient 0.5*b*u4 -> b*u4", (GEO, "+ 0.5 * b * u4", "+ b * u4")),
     M("small-angle norm for the view angle", (GEO, "normThetaTrSubV = 2 / self.sinOfMaxThetaTrSubV**2",
@@ -255,6 +257,8 @@ CORPUS["C07"] = [
 ]
 
 CORPUS["C08"] = [
+    B("kernel results stored through a loop over (column, values) pairs", (EAS, '        dphots[mask], thetaCh100PeV[mask] = self.CphotAng(\n            beta[mask],\n            altDec[mask],\n            showerEnergy[mask],\n            init_lat[mask],\n            init_long[mask],\n            cloudf,\n        )\n', '        computed = self.CphotAng(\n            beta[mask],\n            altDec[mask],\n            showerEnergy[mask],\n            init_lat[mask],\n            init_long[mask],\n            cloudf,\n        )\n        for column, values in zip((dphots, thetaCh100PeV), computed):\n            column[mask] = values\n')),
+    M("kernel results stored through a loop, complement mask", (EAS, '        dphots[mask], thetaCh100PeV[mask] = self.CphotAng(\n            beta[mask],\n            altDec[mask],\n            showerEnergy[mask],\n            init_lat[mask],\n            init_long[mask],\n            cloudf,\n        )\n', '        computed = self.CphotAng(\n            beta[mask],\n            altDec[mask],\n            showerEnergy[mask],\n            init_lat[mask],\n            init_long[mask],\n            cloudf,\n        )\n        for column, values in zip((dphots, thetaCh100PeV), computed):\n            column[~mask] = values\n')),
     B("larger angle chosen by the negated comparison", (EAS, "thetaChEff = np.where(thetaChEnh >= thetaCh100PeV, thetaChEnh, thetaCh100PeV)",
                                                         "thetaChEff = np.where(~(thetaChEnh >= thetaCh100PeV), thetaCh100PeV, thetaChEnh)")),
     M("smaller angle chosen by the negated comparison", (EAS, "thetaChEff = np.where(thetaChEnh >= thetaCh100PeV, thetaChEnh, thetaCh100PeV)",
@@ -407,6 +411,9 @@ CORPUS["C15"] = [
 ]
 
 CORPUS["C16"] = [
+    M("header items filtered by truthiness", (RT, '                **flatten_dict(config.model_dump(), "HIERARCH Config", sep=" "),\n', '                **{k: v for k, v in flatten_dict(config.model_dump(), "HIERARCH Config", sep=" ").items() if v},\n')),
+    M("header items filtered by 'is not None'", (RT, '                **flatten_dict(config.model_dump(), "HIERARCH Config", sep=" "),\n', '                **{k: v for k, v in flatten_dict(config.model_dump(), "HIERARCH Config", sep=" ").items() if v is not None},\n')),
+    B("header items through an unfiltered comprehension", (RT, '                **flatten_dict(config.model_dump(), "HIERARCH Config", sep=" "),\n', '                **{k: v for k, v in flatten_dict(config.model_dump(), "HIERARCH Config", sep=" ").items()},\n')),
     M("early exit hands back a fresh table of the default configuration", (COMP, "        return sim\n\n    init_lat", "        return results_table.init()\n\n    init_lat")),
     M("results table created from a default configuration", (COMP, "    sim = results_table.init(config)\n", "    sim = results_table.init(NssConfig())\n")),
     M("run command: compute() gets a second, freshly loaded configuration (overrides lost)",
